@@ -181,11 +181,16 @@ class Ctx:
             log(p.stdout[-2000:])
             log(p.stderr[-4000:])
             raise Inconclusive("driver failed rc=%d: %s" % (p.returncode, " ".join(map(str, args))))
-        for _ in range(confirm):
+        # the crash must be seen again: `confirm` reproductions within a few further runs (a crash that depends on timing does not
+        # recur in every run; two process deaths with a library frame on the stack are real behaviour of the code under test)
+        seen = 0
+        for _ in range(confirm + 3):
             p2 = self.drv(args, timeout=timeout, check=False, env_extra=env_extra)
-            if p2.returncode == 0 or not crash_of(p2):
-                raise Inconclusive("a driver crash (%s) did not reproduce" % c["panic"])
-        return None, c
+            if p2.returncode != 0 and crash_of(p2):
+                seen += 1
+                if seen >= confirm:
+                    return None, c
+        raise Inconclusive("a driver crash (%s) did not reproduce in %d further runs" % (c["panic"], confirm + 3))
 
     def stage_specs(self, name="tla"):
         """Flat copy of every .tla/.cfg under spec/ into a scratch dir (TLC litters its cwd)."""
